@@ -14,6 +14,7 @@
  */
 #include "vstate.h"
 
+#include <dirent.h>
 #include <fcntl.h>
 #include <poll.h>
 #include <signal.h>
@@ -55,7 +56,11 @@ static int mk_addr(enum leg l, char *out, size_t cap, const char *tag, int *port
     switch (l) {
     case L_UX: snprintf(out, cap, "ux:c20-%s-%d-%d", tag, (int)getpid(), va.worker); return 0;
     case L_UXF: snprintf(out, cap, "uxf:%s/uxf/c20-%s-%d", va.dir, tag, (int)getpid()); return 0;
-    default: { const char *ips[1] = { "127.0.0.1" }; int p = vnet_pick_port(ips, 1); if (p < 0) return -1; if (port_out) *port_out = p; snprintf(out, cap, "%s:127.0.0.1:%d", leg_name[l], p); return 0; }
+    default: {
+        /* every case process has a loopback address of its own (all of 127/8 is local): the port is chosen here but bound by the relay a
+         * moment later, and on a shared address another worker's server could take it in between and receive this case's clients */
+        char ip[32]; unsigned pid = (unsigned)getpid(); snprintf(ip, sizeof ip, "127.%u.%u.%u", (tag[0] == 'f' ? 64 : 128) + ((pid >> 16) & 0x3f), (pid >> 8) & 0xff, pid & 0xff);    /* front and back differ too: the two ports are chosen one after the other and may come out equal */
+        const char *ips[1] = { ip }; int p = vnet_pick_port(ips, 1); if (p < 0) return -1; if (port_out) *port_out = p; snprintf(out, cap, "%s:%s:%d", leg_name[l], ip, p); return 0; }
     }
 }
 
@@ -169,7 +174,7 @@ static void one_case(long idx, void *arg)
             unsigned char hb[16]; int n = xcm_receive(pending[k], hb, 8);
             if (n == 8 && !memcmp(hb, "HELO", 4) && hb[4] < c.nconn && !rc[hb[4]].matched) { rc[hb[4]].a.s = pending[k]; rc[hb[4]].matched = true; pending[k] = NULL; matched++; }
             else if (n > 0 && bs) { /* byte streams may deliver the greeting in pieces: keep it simple, treat as mismatch */ cv("greeting-garbled", leg_name[c.l2], "the first bytes relayed to the server are not the client's greeting (%d bytes)", n); goto out; }
-            else if (n > 0) { cv("greeting-garbled", leg_name[c.l2], "the first message relayed to the server is not the client's greeting (%d bytes)", n); goto out; }
+            else if (n > 0) { cv("greeting-garbled", leg_name[c.l2], "the first message relayed to the server is not the client's greeting (%d bytes: %02x%02x%02x%02x%02x%02x%02x%02x; %d of %d matched, %d pending)", n, hb[0], hb[1], hb[2], hb[3], hb[4], hb[5], hb[6], hb[7], matched, c.nconn, npend); goto out; }
         }
         struct pollfd none; vs_real_poll(&none, 0, 1);
     }
@@ -179,7 +184,7 @@ static void one_case(long idx, void *arg)
 
     /* ---- traffic ---- */
     for (int i = 0; i < c.nconn; i++) { rc[i].budget_c = c.nmsg; rc[i].budget_a = c.pattern == 1 && c.closer_is_client ? 0 : c.nmsg; if (c.pattern == 1 && !c.closer_is_client) rc[i].budget_c = 0; }
-    long steps = 0; double t1 = vnow();
+    long steps = 0; double t1 = vnow(); int flush_failed = 0;
     int stall_conn = (int)vrnd_n(&r, (uint32_t)c.nconn); long stall_until = c.pattern == 2 ? 3000 + (long)vrnd_n(&r, 6000) : 0;
     while (vnow() - t1 < 40) {
         bool all_sent = true;
@@ -207,7 +212,7 @@ static void one_case(long idx, void *arg)
             for (int k = 0; k < 8; k++) { if (do_recv(other) <= 0) break; }
             for (int k = 0; k < 8; k++) { if (closer->term || do_recv(closer) <= 0) break; }        /* keep reading our own side so that the relay is not blocked on us */
         }
-        if (fr != 0) { vobs("closer_could_not_flush", 1); continue; }
+        if (fr != 0) { vobs("closer_could_not_flush", 1); flush_failed++; continue; }
         long closer_ok = closer->n_ok; uint64_t closer_bytes = closer->bytes_ok;
         vx_close(closer);
         /* the other side reads until it sees the close */
@@ -241,14 +246,36 @@ static void one_case(long idx, void *arg)
         struct xcm_attr_map *cm = xcm_attr_map_create(); xcm_attr_map_add_bool(cm, "xcm.blocking", false); if (bs) xcm_attr_map_add_str(cm, "xcm.service", "bytestream");
         const char *ca = a1; char ca2[700]; if (c.l1 == L_UTLS) { snprintf(ca2, sizeof ca2, "tls:%s", strchr(a1, ':') + 1); ca = ca2; }
         nc.s = xcm_connect_a(ca, cm); xcm_attr_map_destroy(cm);
-        bool ok = false; unsigned char m[8] = "LATER!!", rb[16]; bool sent = false; size_t got = 0;
+        bool ok = false; unsigned char m[8] = "LATER!!", rb[16] = { 0 }; bool sent = false; size_t got = 0;
+        /* connections still queued at the server from the first batch (the relay connects to the server as soon as it has accepted a
+         * client, whatever becomes of that client) are not the one looked for: every accepted connection is examined */
+        struct xcm_socket *cand[6] = { 0 }; unsigned char cb[6][8]; size_t cgot[6] = { 0 }; int ncand = 0;
         for (int i = 0; nc.s && i < 4000 && !ok; i++) {
             xcm_finish(nc.s); if (!sent && xcm_send(nc.s, m, 8) >= 0) sent = true;
-            if (!na.s) na.s = xcm_accept(S.s);
-            if (na.s) { int n = xcm_receive(na.s, rb + got, 8 - got); if (n > 0) got += (size_t)n; if (got == 8) ok = !memcmp(rb, m, 8); }
+            if (ncand < 6) { struct xcm_socket *x = xcm_accept(S.s); if (x) cand[ncand++] = x; }
+            for (int k = 0; k < ncand && !ok; k++) {
+                if (!cand[k] || cgot[k] >= 8) continue;
+                int n = xcm_receive(cand[k], cb[k] + cgot[k], 8 - cgot[k]); if (n > 0) cgot[k] += (size_t)n;
+                if (cgot[k] == 8 && !memcmp(cb[k], m, 8)) { ok = true; na.s = cand[k]; cand[k] = NULL; }
+                if (cgot[k] > got) { got = cgot[k]; memcpy(rb, cb[k], 8); }
+            }
             struct pollfd none; vs_real_poll(&none, 0, 1);
         }
-        if (!ok) cv("relay-stopped-serving", leg_name[c.l1], "after the first batch of connections was closed a new connection through the relay carried nothing within 4 s"); else vobs("relay_served_again", 1);
+        if (ncand > 1) { vobs("stray_server_side_connections", ncand - 1); char sc[120]; snprintf(sc, sizeof sc, "stray:%s>%s:p%d:closer-%s:n%d:pre%d:flushfail%d", leg_name[c.l1], leg_name[c.l2], c.pattern, c.closer_is_client ? "client" : "server", c.nconn, c.preload, flush_failed); vclass(sc); }
+        if (!ok && ncand) { na.s = cand[0]; cand[0] = NULL; }
+        for (int k = 0; k < 6; k++) if (cand[k]) xcm_close(cand[k]);
+        if (!ok) {
+            /* what is the relay doing?  CPU ticks over 300 ms, open descriptors, kernel wait channel */
+            char pth[64], st1[600] = "", st2[600] = "", wch[64] = ""; long t1 = 0, t2 = 0; int nfd = 0;
+            snprintf(pth, sizeof pth, "/proc/%d/stat", (int)rp); FILE *f = fopen(pth, "r"); if (f) { if (fgets(st1, sizeof st1, f)) {} fclose(f); }
+            { struct pollfd none; vs_real_poll(&none, 0, 300); }
+            f = fopen(pth, "r"); if (f) { if (fgets(st2, sizeof st2, f)) {} fclose(f); }
+            { long u, k; char *q = strrchr(st1, ')'); if (q && sscanf(q + 2, "%*c %*d %*d %*d %*d %*d %*u %*u %*u %*u %*u %ld %ld", &u, &k) == 2) t1 = u + k; q = strrchr(st2, ')'); if (q && sscanf(q + 2, "%*c %*d %*d %*d %*d %*d %*u %*u %*u %*u %*u %ld %ld", &u, &k) == 2) t2 = u + k; }
+            snprintf(pth, sizeof pth, "/proc/%d/wchan", (int)rp); f = fopen(pth, "r"); if (f) { if (fgets(wch, sizeof wch, f)) {} fclose(f); }
+            snprintf(pth, sizeof pth, "/proc/%d/fd", (int)rp); { DIR *d = opendir(pth); struct dirent *de; while (d && (de = readdir(d))) if (de->d_name[0] != '.') nfd++; if (d) closedir(d); }
+            cv("relay-stopped-serving", leg_name[c.l1], "after the first batch of connections was closed a new connection through the relay carried nothing within %d event-loop rounds (client connected: %s, message accepted: %d, server accepted: %s, %zu bytes arrived: %02x%02x%02x%02x%02x%02x%02x%02x); relay: %ld CPU ticks in 300 ms, %d descriptors, waiting in '%s', said: %s",
+               4000, nc.s ? "yes" : "no", sent, na.s ? "yes" : "no", got, rb[0], rb[1], rb[2], rb[3], rb[4], rb[5], rb[6], rb[7], t2 - t1, nfd, wch, relay_said());
+        } else vobs("relay_served_again", 1);
         if (nc.s) xcm_close(nc.s); if (na.s) xcm_close(na.s);
     }
     { char sg[100]; snprintf(sg, sizeof sg, "%s>%s|n%d|p%d|pre%d|%d", leg_name[c.l1], leg_name[c.l2], c.nconn > 1, c.pattern, c.preload, c.closer_is_client); vsig_str(sg); }
